@@ -9,6 +9,7 @@ import LachesisVerif.Proofs.ElectionExample
 import LachesisVerif.Proofs.OrdererFinal
 import LachesisVerif.Proofs.RefEquivG
 import LachesisVerif.Proofs.RefEquivL
+import LachesisVerif.Proofs.RefEpochs5
 /-!
 # C10 — Consensus output matches an independent reference implementation
 
@@ -70,8 +71,15 @@ Hypotheses of the L5 theorems beyond "valid events, forkers below one third" (`O
 the forkless-cause oracle answers `N.FC` (C05), the validator record is canonical with total
 ≤ 2^31-1 (C12), accepted frames are < 2^31, the application never seals (one epoch).
 
-NOT proved: several epochs / sealing (C09; `decideLoop` with a seal, the fresh instance of the next
-epoch), restarts (C08). The other two fields of a block are treated in their own properties: the
+Several epochs (last section, `Proofs/RefEpochs*.lean`): `reference_process_seal` (a `process` call of the
+reference at which the seal table fires emits the blocks up to and including the sealing frame and
+returns exactly `Inst.fresh (epoch+1) pairs`), `C10_model_eq_reference_epoch_partial` (one epoch that
+may be sealed) and `C10_model_eq_reference_epochs_partial`: driven epoch by epoch with the same events
+and seal entries at the same (epoch, frame), model and reference emit the same
+`(epoch, frame, Atropos, sealed)` sequence and make the same epoch transitions (`initial (e+1) nv` /
+`Inst.fresh (e+1) pairs`); remaining hypotheses are listed at the theorem (`RefEpochs.BothOK`).
+
+NOT proved: restarts (C08); events of an old epoch submitted after its seal (they are skipped, as in C01). The other two fields of a block are treated in their own properties: the
 confirmed-event lists in C02 (`C02_reference_delivers`, `C02_reference_eq_model_delivered`:
 reference `events` = new ancestry of the Atropos = what the model's `confirmEvents` delivers), the
 cheater lists in C03 (`C03_reference_cheaters`: reference cheaters = the model's cheater loop on the
@@ -774,6 +782,107 @@ example : ∃ s out, Run 1 exV1 [exE0] s out ∧ (netOf s).BFT ∧ FrameBound (n
   exact ⟨s, out, h, exRun1_hyps h⟩
 
 end ReferenceElection
+
+/-! ## Several epochs: model = reference with seals (`Proofs/RefEpochs*.lean`)
+
+The reference consults the application's seal table inside `decideLoop`; a sealing instance is computed
+from the instance with the empty table (the setting of everything above) exactly as
+`Proofs/OrdererEpochs*.lean` does for the model: of the blocks `bs` of the unsealing call it emits
+`rcut seals ep bs` — the prefix up to and including the first frame with a table entry, that block
+marked sealed — and is then *exactly* `Inst.fresh (ep + 1) pairs` (`reference_process_seal`). Whole
+epochs: `refEpoch` / `refEpochs` (reference) beside `runEpoch` / `runEpochs` (model, C01); the one-epoch
+theorem above applies to each epoch's unsealing runs, and equal sequences are cut at the same place. -/
+section ReferenceEpochs
+open Spec.Lachesis RefEquiv RefEpochs OrdererEpochs OrdererProofs Model.Orderer
+open Spec.Lachesis.Inst (Block)
+
+/-- the reference when the seal table fires (about `Spec/Lachesis.lean` as it is): if `process` with the
+    empty table accepts `e` and emits `bs`, then `process seals` returns the same unless the table has
+    an entry at the frame of one of these blocks; in that case it emits the blocks up to and including
+    the first such frame (that one marked sealed) and returns *exactly* the fresh instance of epoch + 1
+    over the validators of that entry -/
+theorem reference_process_seal (seals : Seals) {s s' : Inst} {e : Ev} {bs : List Block}
+    (h : process [] s e = (s', .ok bs)) :
+    process seals s e =
+      match rcut seals s.epoch bs with
+      | none => (s', .ok bs)
+      | some (l, nv) => (Inst.fresh (s.epoch + 1) nv, .ok l) :=
+  process_sim seals h
+
+/-- **`C10_model_eq_reference_epochs_partial`: model = reference over several epochs.**
+    `ps` lists, per epoch, the events the reference accepts (in the reference's own order), the
+    reference's end state `fin` of that epoch under the empty seal table (it names the epoch's graph
+    `netOf fin` and its events: position ↦ protocol number, as in `C10_model_eq_reference_partial`), and
+    the model's oracles and processing order. The reference is driven by `refEpochs seals` from
+    `start ep rvals` (= `Inst.fresh ep pairs` when `rvals = canonVals pairs`), the model by C01's
+    `runEpochs` from `initial ep vals` (`runEpochsNamed` = `runEpochs` with each epoch's Atropoi named
+    by protocol number); both stop an epoch at the `process` call that seals and do not submit the
+    rest of the epoch's events. Then both accept everything they are given, emit the same sequence
+    `(epoch, frame, Atropos, sealed)`, and make the same transitions (`SameTransitions`): every sealed
+    epoch is sealed by entries `sealAt e F = some nv`, `seals.lookup (e, F) = some pairs` for the same
+    `(e, F)`, after which the model is exactly `initial (e+1) nv` and the reference exactly
+    `Inst.fresh (e+1) pairs`; if the last listed epoch is not sealed, both are in that epoch with its
+    validators and the same last decided frame.
+
+    Remaining hypotheses (`RefEpochs.BothOK seals sealAt ep rvals vals ps`, by recursion over the epochs,
+    for the epoch `ep` with reference validators `rvals` and model validators `vals`):
+    * `Run ep rvals p.evs p.fin out` — the reference with the empty table accepts the epoch's checked
+      events `p.evs` (every event `GoodEv`) and ends in `p.fin`;
+    * `Ctx (netOf p.fin) vals (noSeal p.env)` — as in `C10_model_eq_reference_partial`: forkers below one
+      third (BFT), accepted frames < 2^31, `vals` the canonical record of the epoch's validators with
+      total ≤ 2^31-1, the model's forkless-cause oracle of this epoch answers `N.FC` (C05, C12);
+    * `p.env.sealAt = sealAt` — one application for all epochs;
+    * `PFFrom (netOf p.fin) [] p.ids`, `∀ e < p.fin.size, e ∈ p.ids` — the model's order is parents-first
+      and covers the epoch's events;
+    * `ep + 1 < 2^32` — the model's epoch counter does not wrap;
+    * `SealsAgree seals sealAt ep` — table and application have entries at the same frames of `ep`;
+    * for every pair of entries `sealAt ep F = some nv`, `seals.lookup (ep, F) = some pairs`:
+      `BothOK` for the remaining epochs from `(ep+1, canonVals pairs, nv)` (so "`nv` is the canonical
+      record of `pairs`" is the next epoch's `Ctx`).
+    `_partial`: `(epoch, frame, Atropos, sealed)` only (cheaters C03, confirmed events C02); events of
+    an old epoch arriving after its seal are not submitted (as in `C01_multi_epoch_partial`). -/
+theorem C10_model_eq_reference_epochs_partial (seals : Seals) (sealAt : Nat → Nat → Option Vals)
+    (ps : List EpochBoth) (ep : Nat) (rvals : List (Nat × Nat)) (vals : Vals)
+    (hok : BothOK seals sealAt ep rvals vals ps) :
+    ∃ sm sr bs, runEpochsNamed ps (initial ep vals) [] = some (sm, bs.map bkey) ∧
+      refEpochs seals (ps.map (·.evs)) (start ep rvals) [] = some (sr, bs) ∧
+      SameTransitions seals sealAt ep rvals vals ps sm sr ∧ sm.epoch = sr.epoch ∧ sm.ldf = sr.ldf ∧
+      ∃ ds, runEpochs (ps.map EpochBoth.model) (initial ep vals) [] = some (sm, ds) ∧
+        ds.map (fun d => (d.epoch, d.frame, d.sealed)) = bs.map (fun b => (b.epoch, b.frame, b.sealed)) := by
+  obtain ⟨sm, sr, bs, h1, h2, h3⟩ := epochs_model_eq_reference seals sealAt ps ep rvals vals [] hok
+  obtain ⟨ds, h4, h5⟩ := runEpochsNamed_runEpochs ps (initial ep vals) [] [] rfl sm _ h1
+  refine ⟨sm, sr, bs, h1, h2, h3, (sameTransitions_end _ _ _ _ _ _ _ _ h3).1,
+    (sameTransitions_end _ _ _ _ _ _ _ _ h3).2, ds, h4, ?_⟩
+  rw [← h5, List.map_map]
+  rfl
+
+/-- one epoch that may be sealed (the step of the theorem above) -/
+theorem C10_model_eq_reference_epoch_partial {ep : Nat} {rvals : List (Nat × Nat)} {evs : List Ev} {s : Inst}
+    {out : List Block} (hrun : Run ep rvals evs s out) {vals : Vals} {env : Env}
+    (C : Ctx (netOf s) vals (noSeal env)) (seals : Seals) (hs : SealsAgree seals env.sealAt ep)
+    (ids : List Nat) (hpf : PFFrom (netOf s) [] ids) (hall : ∀ e, e < s.size → e ∈ ids)
+    (hepb : ep + 1 < 4294967296) :
+    ∃ sm ds skm sr bs skr, runEpoch (netOf s) env ids (initial ep vals) [] = some (sm, ds, skm) ∧
+      refEpoch seals evs (start ep rvals) [] = some (sr, bs, skr) ∧
+      ds.map (dkey (fun a => (s.ev a).n)) = bs.map bkey ∧
+      ((ds.any (·.sealed) = true ∧ bs.any (·.sealed) = true ∧ ∃ F nv pairs, env.sealAt ep F = some nv ∧
+          seals.lookup (ep, F) = some pairs ∧ sm = initial (ep + 1) nv ∧ sr = Inst.fresh (ep + 1) pairs) ∨
+       (ds.any (·.sealed) = false ∧ bs.any (·.sealed) = false ∧ skm = [] ∧ skr = [] ∧ sm.epoch = ep ∧
+          sr.epoch = ep ∧ sm.vals = vals ∧ sr.vals = rvals ∧ sm.ldf = sr.ldf)) :=
+  epoch_model_eq_reference hrun C seals hs ids hpf hall hepb
+
+/-- non-vacuity (`Proofs/RefEpochs5.lean`): one validator, two epochs with a chain of three events each
+    (frames 1, 2, 3); table and application seal epoch 1 at frame 1. All hypotheses hold, and both
+    sides emit `(1, 1, 10, sealed)`, `(2, 1, 20, unsealed)` (the reference evaluated by the kernel). -/
+example : BothOK Example.exSeals Example.exSealAt 1 Example.v1 Example.valsA [Example.pA, Example.pB] ∧
+    ∃ sm sr bs, runEpochsNamed [Example.pA, Example.pB] (initial 1 Example.valsA) [] = some (sm, bs.map bkey) ∧
+      refEpochs Example.exSeals [Example.chain 1 10, Example.chain 2 20] (start 1 Example.v1) [] = some (sr, bs) ∧
+      bs.map bkey = [(1, 1, 10, true), (2, 1, 20, false)] ∧
+      SameTransitions Example.exSeals Example.exSealAt 1 Example.v1 Example.valsA [Example.pA, Example.pB] sm sr ∧
+      sm.epoch = sr.epoch ∧ sm.ldf = sr.ldf :=
+  Example.example_two_epochs
+
+end ReferenceEpochs
 
 /-! ### non-vacuity -/
 def exampleElection : Election :=
